@@ -96,6 +96,17 @@ def correspondence(rng, tier):
     r['distinct'] = r.get('distinct', 0) + f.get('distinct', 0)
     r.setdefault('distribution', {})['restore_then_declare'] = f.get('programs', 0)
     r['rule'] = r.get('rule', '') + '; plus restore_then_declare: result() of quantities depending on restored intermediates, reading context id smaller and larger than the writing one (model Archive.v + Kernel.step)'
+    # extra_corr: report_transparency: budget/components of result(w) vs w (model Budget.v), incl. intermediate=True with default trim
+    p17 = __import__('p_C17')
+    tr = p17.budget_transparency_correspondence(rng, tier, 'C06t')
+    p17.add_to(r, tr, 'report_transparency', tr['rule'])
+    # extra_corr: complex_promotion: a real operand of every role combined with complex literals on both sides, incl. the identity shortcuts 0j + x, x + 0j, (1+0j)*x, x/(1+0j), x**(1+0j) (model CKernel.v)
+    f = __import__('cgen').run_ckernel_corr(rng, 'promotion', 'C06c', tier=tier)
+    r['mismatches'] += f.get('mismatches', [])
+    r['programs'] += f.get('programs', 0); r['steps'] += f.get('steps', 0)
+    r['distinct'] = r.get('distinct', 0) + f.get('distinct', 0)
+    r.setdefault('distribution', {})['complex_promotion'] = f.get('programs', 0)
+    r['rule'] = r.get('rule', '') + '; plus complex_promotion: a real operand of every role (declared intermediate or not) combined with complex literals on both sides incl. every identity shortcut, against the model CKernel.v (result() must stay transparent)'
     # extra_corr: array_result: result(array) over every rank, memory layout and label form (model Array.v C16_result + per-element checks)
     import arrays
     q = arrays.result_correspondence(rng, tier, 'C06res')
